@@ -493,6 +493,12 @@ pub(crate) fn run(
                         if state.get(0) > slot1 {
                             state.save(0, slot1);
                         }
+                        // Inside a look-behind `\K` can record a start that lies before the
+                        // position the search started from. A match never starts before that
+                        // position (the iterators, split and replace rely on it).
+                        if state.get(0) < pos {
+                            state.save(0, pos);
+                        }
                     }
                     return Ok(Some(state.saves));
                 }
